@@ -6,7 +6,7 @@ import subprocess
 import time
 import hashlib
 
-CACHE = '/verif/.cache/vx'
+CACHE = (os.environ.get('VERIF_ROOT') or '/verif') + '/.cache/vx'
 VERUS_ARGS = ['--output-json', '--time', '--triggers-mode', 'silent', '--error-format=json', '--multiple-errors', '5', '--rlimit', '60']
 
 # verifier messages that mean "an obligation generated from the code is not provable"
